@@ -98,7 +98,7 @@ CHECKS = {
             "the real RequestBlockQF. TLA+ serves as enumerator and oracle language here (equality), as stated in DESIGN 9.",
             "protobuf's codec is trusted.", "DESIGN.md section 6, C12"),
     "C13": ("model_checking",
-            "TLA+ BlockStore module over block forests (reference ancestry, prune soundness, code-shaped walk/index); TLC state-machine replay of store/get/extends/commit sequences run on the real Blockchain, RequestBlockQF and Committer",
+            "TLA+ BlockStore module over block forests (reference ancestry, prune soundness, code-shaped walk/index) and MC_BlockStoreConc (Get/Store under concurrency, model-checked with two negative controls); TLC state-machine replay of store/get/extends/commit sequences run on the real Blockchain, RequestBlockQF and Committer",
             "Seeded random forests (forks, equal views on different branches, gaps, unobtainable parents) and a structured equivocation-next-to-gap family are driven "
             "through the real Blockchain (fetch through the real RequestBlockQF with lying replies) and the real Committer; TLC replays each sequence and checks "
             "content addressing, exact ancestry where the store can know it, and that abandoned blocks are off the committed chain and reported once -- at failed commits too, and across commits (Pass A), plus the "
